@@ -266,9 +266,18 @@ Qed.
 
 Lemma serde_flags_range d data fl : serde_serialize c d = Ok (data, fl) -> 0 <= fl < 2 ^ 32.
 Proof.
-  unfold serde_serialize. destruct (c_serde c =? 0); [intros H; inversion H; lia|].
-  unfold serialize, FLAG_PICKLE, FLAG_TEXT, FLAG_INTEGER. destruct d; intros H; try (inversion H; subst; cbn; lia).
-  match type of H with context [utf8_encode ?x] => destruct (utf8_encode x) end; inversion H; subst; cbn; lia.
+  assert (Hs : forall pv data0 fl0, serialize (o_dumps (c_orc c)) pv d = Ok (data0, fl0) -> fl0 = 0 \/ fl0 = 16 \/ fl0 = 2 \/ fl0 = 1).
+  { intros pv data0 fl0. unfold serialize, FLAG_PICKLE, FLAG_TEXT, FLAG_INTEGER. destruct d; intros H; try (inversion H; subst; cbn; auto; fail).
+    match type of H with context [utf8_encode ?x] => destruct (utf8_encode x) end; inversion H; subst; cbn; auto. }
+  unfold serde_serialize. cbv zeta. destruct (c_serde c =? 0); [intros H; inversion H; lia|].
+  destruct (c_serde c =? 2).
+  - unfold c_serialize. destruct (serialize (o_dumps (c_orc c)) (o_pickle_version (c_orc c)) d) as [[v0 f0]|x] eqn:E; [|discriminate].
+    specialize (Hs _ _ _ E). cbn [bind]. destruct v0 as [| | | |l| | | |]; try discriminate.
+    destruct ((zlen l >? o_min_compress_len (c_orc c)) && (o_min_compress_len (c_orc c) >? 0)).
+    + cbv zeta. destruct (zlen l <? zlen (o_compress (c_orc c) l)); intros H; inversion H; subst;
+        destruct Hs as [->|[->|[->| ->]]]; unfold FLAG_COMPRESSED; cbn [Z.lor Pos.lor]; lia.
+    + intros H; inversion H; subst. lia.
+  - intros H. specialize (Hs _ _ _ H). lia.
 Qed.
 
 Definition in_i64 (v : dyn) : Prop := forall z, int_value v = Some z -> - 2 ^ 63 <= z < 2 ^ 63.
